@@ -193,11 +193,18 @@ type App struct {
 	Delivered []hg.Block // as received by the callback (before state hash)
 	NewIdx    []int
 	FailNext  bool
+	FailedIdx []int // indexes of the blocks whose commit the application failed (FailNext)
 }
 
 func (a *App) Commit(block hg.Block) (proxy.CommitResponse, error) {
 	if a.FailNext {
+		// the application fails once. The hashgraph has already stored the block and moves on to the next
+		// index, so the attempted block is part of the node's chain: it is recorded like a delivery (it
+		// keeps no state hash and no receipts) and its index is remembered in FailedIdx.
 		a.FailNext = false
+		a.FailedIdx = append(a.FailedIdx, block.Index())
+		a.Delivered = append(a.Delivered, block)
+		a.NewIdx = append(a.NewIdx, block.Index())
 		return proxy.CommitResponse{}, fmt.Errorf("app failure")
 	}
 	h := sha256.New()
@@ -248,6 +255,7 @@ type Node struct {
 	RoundDiverged bool        // C13 known root cause observed on this reset node
 	Final         []*hg.Block // delivered blocks as stored after commit (pointers into store at delivery time)
 	FinalBody     []string    // canonical body strings at delivery time
+	NoDump        bool        // the observables are not printed (a node that is not compared with the model and whose store reads are expensive or intrusive)
 }
 
 // NewNode creates a core over the given store with peer set `current` and genesis set `genesis`.
@@ -542,6 +550,10 @@ func (nd *Node) AfterActionX(sigPoolRan bool, detect bool) {
 		fmt.Fprintf(w.Out, "G %d\n", nd.ID)
 	}
 	// 3. observables
+	if nd.NoDump {
+		fmt.Fprintf(w.Out, "K %d\n", nd.ID)
+		return
+	}
 	evs := []int{}
 	for id := range nd.Inserted {
 		evs = append(evs, id)
